@@ -24,6 +24,7 @@ import PandoraModel.Properties.C13PipelineCbca
 import PandoraModel.Properties.C13CbcaFlip
 import PandoraModel.Properties.C13RunCbca
 import PandoraModel.Properties.C13RunCbcaFlip
+import PandoraModel.Properties.C13RunBool
 open Pandora.C13
 #print axioms Local.comp
 #print axioms Local.pair
@@ -271,3 +272,8 @@ open Pandora.C13
 #print axioms nanOutsideOK_of_mc
 #print axioms runCbca_crop_eq_whole
 #print axioms runCbca_flip
+#print axioms runOK_of_B
+#print axioms cropRun_of_B
+#print axioms docCone_bounds
+#print axioms cone_of_B
+#print axioms run_crop_eq_whole_of_B
